@@ -63,6 +63,30 @@
 	} while (0)
 #include "C10/mr_contract.h"
 #include "lib/util/src/alloc.c"
+
+#if ITYPE == 8 && !defined(VERIF_REPLAY)
+/* realloc by contract (cbmc's own model copies a symbolic number of bytes and
+ * exhausts the memory cap from two index entries on): NULL and the old block
+ * intact, or a fresh block of the new size that starts with the old inode
+ * header and agrees with the old block at the witness position; the old
+ * block is released. */
+static void *ri_realloc(void *p, size_t n)
+{
+	unsigned char *q;
+
+	VERIF_ASSERT(p != NULL && VERIF_R_OK(p, sizeof(sqfs_inode_generic_t)) &&
+		     n >= VERIF_OBJECT_SIZE(p), ENV_NAME("realloc.args"));
+	q = malloc(n);
+	if (q == NULL)
+		return NULL;
+	(memcpy)(q, p, sizeof(sqfs_inode_generic_t));
+	if (g_k >= sizeof(sqfs_inode_generic_t) && g_k < VERIF_OBJECT_SIZE(p))
+		q[g_k] = ((unsigned char *)p)[g_k];
+	free(p);
+	return q;
+}
+#define realloc(p, n) ri_realloc((p), (n))
+#endif
 #include "lib/sqfs/src/read_inode.c"
 
 static sqfs_u64 spec_block_count(sqfs_u64 size, sqfs_u64 bs, sqfs_u32 fidx,
@@ -157,7 +181,10 @@ void harness(void)
 			   union tail is havocked by the instrumentation) */
 			if (w >= u0 && w < sizeof(*ino))
 				VERIF_ASSERT(raw[w] == 0, INO("determined"));
+			/* (up to payload_bytes_available: what lies behind it in
+			   a block grown by realloc is not part of the object) */
 			if (w >= sizeof(*ino) + ino->payload_bytes_used &&
+			    w < sizeof(*ino) + ino->payload_bytes_available &&
 			    w < VERIF_OBJECT_SIZE(ino))
 				VERIF_ASSERT(raw[w] == 0, INO("determined"));
 #else
